@@ -104,7 +104,7 @@ class LazyList:
                 return ret
         else:
             if position < 0:
-                self.generated += list(self)
+                self.listify()  # pull the rest of the source into the cache
                 return self.generated[position]
             elif position < len(self.generated):
                 return self.generated[position]
